@@ -120,6 +120,9 @@ type Result struct {
 	// cmd/server main(): the shutdown steps after the wait for a signal, in order (closer.go); nil + reasons when not recognised
 	CloserOrder   []string `json:"closer_order"`
 	CloserReasons []string `json:"closer_reasons"`
+
+	// atomic.go: effects and guards of the session manager's and the timer map's methods (Gen/Atomic.v)
+	Atomic *Atomic `json:"atomic"`
 }
 
 func (r *Result) EnumOK() bool  { return len(r.EnumReasons) == 0 && len(r.Enum) > 0 }
@@ -163,6 +166,12 @@ func Translate(repo, errV string) *Result {
 	if len(t.res.CloserReasons) > 0 {
 		t.res.CloserOrder = nil
 	}
+	var atomicPanic []string
+	t.step(&atomicPanic, "atomicity", t.readAtomic)
+	if t.res.Atomic == nil {
+		t.res.Atomic = &Atomic{}
+	}
+	t.res.Atomic.Reasons = append(t.res.Atomic.Reasons, atomicPanic...)
 	return t.res
 }
 
